@@ -253,6 +253,87 @@ SEEDS = {
         property="C20", change="errorCount++ dropped where the translation part is compiled alone and a name cannot be resolved",
         needs="an entry point that compiles only the translation part (lou_getEmphClasses) with a name found nowhere",
         first="missed", strengthened="C20 also asks lou_getEmphClasses for every arrangement"),
+    # ---- round 4
+    "C01d-prehyph-inputpos-inlen": dict(
+        property="C01", change="lou_translatePrehyphenated sizes its stand-in inputPos array by *inlen instead of *outlen",
+        needs="inputHyphens given, inputPos NULL, more cells than characters",
+        first="missed (the harness called the function without hyphen arrays)",
+        strengthened="harness command Q: lou_translatePrehyphenated with hyphen arrays of exactly inlen / outlen bytes, in the C01 streams and (with an oracle for the output marks) in C10"),
+    "C02d-back-lookback-noclamp": dict(
+        property="C02", change="back_passDoTest no longer clamps pos to 0 after a look-back before the start",
+        needs="a negated look-back (!_N) in a backward rule, tested within the first N cells",
+        first="missed", strengthened="negated look-backs, literals and attributes in the generated multipass constructs, both directions"),
+    "C03e-dontcontract-overwrite": dict(
+        property="C03", change="translateString overwrites dontContract with 1 wherever the typeform says no_contract (the value 2 set by nocont is lost)",
+        needs="nocont + seqdelimiter in the table, a word `chars delimiter chars nocont-string`, no_contract on a character before the delimiter",
+        first="missed (no typeforms in C03; a quarter of the generated tables did not compile)",
+        strengthened="C03 passes typeforms (no_contract, computer_braille, no_translate), builds inputs around the operand strings of the table's own special rules, "
+                     "and the rule shapes the compiler rejects were corrected (all generated tables compile now)"),
+    "C04d-free-wrong-size-reset": dict(
+        property="C04", change="lou_free resets sizePosMapping2 instead of sizePosMapping3: later _lou_allocMem returns the freed NULL buffer",
+        needs="a multi-stage table, lou_free, another call no larger than before: returns 0 without a message",
+        first="missed by C04 (caught by C14 and C08)", strengthened="C04 calls lou_free at a few places of the streams that run with the library's own scratch sizing"),
+    "C05d-trace-count-not-reset": dict(
+        property="C05", change="_lou_translate resets the applied-rule counter only when no trace array is passed",
+        needs="two traced calls in a row", first="caught (C05: engine mismatch, rule trace)", strengthened=""),
+    "C06d-posbefore-startreplace": dict(
+        property="C06", change="translatePass takes posBefore from patternMatch.startReplace instead of pos",
+        needs="a pass2-4 rule with a prefix and an empty replaced range, another rule matching right behind the prefix",
+        first="caught (C06: forward mismatch)", strengthened=""),
+    "C07d-begphrase-shift": dict(
+        property="C07", change="insertEmphasisBegin maps the phrase-begin indicator with shift -1 (copied from the end indicators)",
+        needs="a capitals / emphasis passage starting at position 0, a table without a correct pass, position arrays",
+        first="missed", strengthened="inputs whose passage (several capital or emphasised words) starts at the first character, for every table of the C07 run"),
+    "C08d-back-indicator-posmap": dict(
+        property="C08", change="backTranslateString skips the cells of begemph/endemph/begcomp/endcomp without writing their map entries",
+        needs="back-translation of cells containing such an indicator, position arrays, an earlier call that left other values in the buffer",
+        first="missed", strengthened="the C08 pool back-translates REAL forward output of the emphasis tables and shipped tables (with indicator cells) with position arrays; begcomp/endcomp in the generated emphasis tables"),
+    "C09d-unicode-cells-need-ucbrl": dict(
+        property="C09", change="_lou_backTranslate folds U+28xx input cells only when ucBrl is set",
+        needs="back-translation with dotsIO without ucBrl of Unicode braille input", first="caught (C09: back-unicode-braille-not-accepted)", strengthened=""),
+    "C10d-skip-map-composition": dict(
+        property="C10", change="_lou_translate skips the composition of the position maps when neither inputPos nor outputPos is passed",
+        needs="three or more stages, a capacity a later stage runs into, a middle stage that changed the length, both arrays NULL",
+        first="missed", strengthened="C10 got multi-stage tables (shipped ones picked by their opcodes, generated ones) with capacities swept over the range where later stages stop"),
+    "C11d-ucbrl-implies-dotsio-forward": dict(
+        property="C11", change="forward output conversion treats ucBrl as implying dotsIO",
+        needs="ucBrl without dotsIO: forward gives U+28xx, backward reads characters",
+        first="missed by C11 (caught by C09)", strengthened="C11 round-trips one-to-one tables in the other output modes too (0, ucBrl, ucBrl|noUndefined, dotsIO|ucBrl, noUndefined)"),
+    "C12d-backmatch-half-pattern": dict(
+        property="C12", change="compileRule copies only the first half of a backmatch rule's pattern object into the image",
+        needs="a backmatch rule (no shipped table has one)",
+        first="missed (match patterns were not walked)", strengthened="the image walker steps through both compiled patterns of every match / backmatch rule (node types, links, loop counters, END reachable; "
+                     "size of the object from its two stored lengths); match and backmatch rules in the kitchen-sink table and the generated constructs"),
+    "C13d-includedepth-kept-on-failure": dict(
+        property="C13", change="includeFile restores the nesting counter only when the included file compiled",
+        needs="a table rejected inside nested includes, then lou_compileString(other, \"include valid\") without a new list compiled in between",
+        first="missed by C13 (caught by C15's bursts)", strengthened="C13 adds a valid include at run time to another loaded table after every fault"),
+    "C14d-resolver-leaks-paths": dict(
+        property="C14", change="the failure branch of _lou_defaultTableResolver frees the array but not the path strings",
+        needs="a list whose first member resolves and a later one does not; visible only as a leak after lou_free",
+        first="missed (no such list; and run_stream ignored a sanitizer report at exit when every case had answered)",
+        strengthened="operation `list with an unresolvable second member` in C14; run_stream turns a non-zero exit status after the last answer into a failure of the last case"),
+    "C15d-display-pass-before-guard": dict(
+        property="C15", change="lou_compileString compiles the rule for the display table first, then for the translation table (where the finalised guard sits)",
+        needs="a rule with a display effect offered after the list was used for translation: returns 0 but the display table changed",
+        first="missed", strengthened="after the use, C15 offers several kinds of rules (translation, sign, display, include, letter) and probes lou_charToDots / lou_dotsToChar on their characters and cells before and after"),
+    "C16d-include-raw-token": dict(
+        property="C16", change="the include opcode passes the raw token instead of the parsed file name",
+        needs="an escape (\\s, \\xhhhh) in an include operand", first="missed",
+        strengthened="packaging variant whose wrapper spells a character of each included file name as an escape and includes a file with a blank in its name"),
+    "C17d-hyph-zero-digit-as-letter": dict(
+        property="C17", change="compileHyphenation takes '0' for a letter of the pattern",
+        needs="a pattern with an explicit 0 (hyph_fr_FR.dic, hyph_hu_HU.dic)", first="caught (C17: mismatch on hyph_fr_FR.dic)", strengthened=""),
+    "C18d-info-first-list-hit": dict(
+        property="C18", change="lou_getTableInfo keeps the first hit of the sorted feature list instead of the smallest line number",
+        needs="a key repeated in the header whose later value sorts first", first="caught (C18: info-not-first-occurrence)", strengthened=""),
+    "C19d-setloglevel-ignores-all": dict(
+        property="C19", change="lou_setLogLevel ignores values <= LOU_LOG_ALL (meant as a range check)",
+        needs="setting the threshold ALL after another one", first="caught (C19: model mismatch, filter mismatch)", strengthened=""),
+    "C20d-cache-prefix-le": dict(
+        property="C20", change="the table cache matches a requested name that is a prefix of a cached list string (<= instead of ==)",
+        needs="a list loaded first, then its first member alone or a name that exists nowhere and begins the list string",
+        first="missed by C20 (caught by C14)", strengthened="C20 asks, after the list, for its first member alone and for a non-existent beginning of the list string, and compares with a fresh state"),
 }
 
 
